@@ -307,8 +307,19 @@ func runC04Scenario(work string, idx int, sc c04Scenario, tier string, only *c04
 		}(ji, j)
 	}
 	wg.Wait()
+	ran, missed := 0, 0
 	for _, rs := range out {
+		for _, r := range rs {
+			ran++
+			if len(r.Tags) == 1 && r.Tags[0] == "fs:mislanded" {
+				missed++
+			}
+		}
 		recs = append(recs, rs...)
+	}
+	if ran > 0 && missed*4 > ran {
+		// kill/error injection is not reaching the intended calls: the crash and fault clauses are not being exercised
+		recs = append(recs, direct("inject", sprintf("%d of %d injected runs did not land on the intended system call: the tracer's injection is not usable, the property is not shown", missed, ran)))
 	}
 	return recs
 }
